@@ -375,6 +375,14 @@ def check(desc, run, res):
                         last_obj[objkey] = st['pv']
         elif kind == 'read':
             reads.append((seq, t, x, {k: dict(v) for k, v in subs.items()}))
+    if not strict:
+        # retried requests (lossy / jitter modes) can be processed in the very instant of another cause for the same
+        # subscription; which of the two a notification of that instant answers is then not decidable from the wire
+        for k, E in expected.items():
+            for i in range(1, len(E)):
+                if abs(E[i]['t'] - E[i - 1]['t']) <= 1e-6:
+                    ambiguous.add(k)
+                    w.probe('c16-same-instant-causes-relaxed')
     # ---- compare per subscription, in order
     obs = {}
     for (seq, t, sub, kind, d, inv) in emitted:
